@@ -123,9 +123,41 @@ def check_reader(rep, prog, fn):
                         v = n.c[1].cv
                     stores.append((n, lhs.c[1], v))
         what = 'a NUL stored into %s only replaces a line terminator' % bname
+        # stores through a pointer into the buffer: char *p = strpbrk(buf, "\r\n") / strchr(buf, '\n'); *p = '\0';
+        for n in nodes:
+            if n.k == 'BinaryOperator' and n.op == '=':
+                lhs = n.c[0].strip_all()
+                if lhs.k == 'UnaryOperator' and lhs.op == '*':
+                    pv = ex.var_of(lhs.c[0])
+                    pd = ex.unique_def(fn, pv) if pv is not None else None
+                    pc_ = pd.strip_all() if pd is not None else None
+                    if pc_ is not None and pc_.k == 'CallExpr' and pc_.callee and pc_.callee['name'] in ('strpbrk', 'strchr', 'strrchr', 'memchr') and \
+                            pc_.args() and ex.var_of(pc_.args()[0]) == buf:
+                        val = n.c[1].strip_all().cv
+                        if val != 0:
+                            rep.undecided('R10a', n, fn, what, 'store of a non-NUL value into the line buffer')
+                            continue
+                        if pc_.callee['name'] == 'strpbrk':
+                            lit = None
+                            for s_ in ex.string_literals(pc_.args()[1]):
+                                lit = s_.value
+                            good = lit is not None and '\n' in lit and set(lit) <= set('\r\n')
+                            shown = repr(lit)
+                        else:
+                            ch = pc_.args()[1].strip_all().cv
+                            good = ch in (10, 13)
+                            shown = repr(chr(ch)) if isinstance(ch, int) and 0 <= ch < 256 else '?'
+                        if good:
+                            rep.ok('R10a', n, fn, what, 'the pointer comes from %s(%s, %s): the first line terminator (the store is skipped when there is none)' % (
+                                pc_.callee['name'], bname, shown))
+                        else:
+                            rep.violation('R10a', n, fn, what, '%s searches for %s, not for the line terminators: the line is cut at another character' % (
+                                pc_.callee['name'], shown), key='R10a|%s|pointer-cut' % fn.g)
+                        stores.append((n, None, 'done'))
+        stores_idx = [x for x in stores if x[2] != 'done']
         if not stores:
             rep.ok('R10a', fgets[0], fn, what, 'no store into the line buffer at all')
-        for (st, idx, val) in stores:
+        for (st, idx, val) in stores_idx:
             if val != 0:
                 rep.undecided('R10a', st, fn, what, 'store of a non-NUL value into the line buffer')
                 continue
@@ -223,7 +255,40 @@ def check_reader(rep, prog, fn):
                   and not (d.line > sc.line)]
         wname = prog.vars[wvar]['name']
         uninit = [d for (d, rhs) in inloop if d.k == 'VarDecl' and rhs is None]
-        if uninit and not [x for x in dom if x[1] is not None]:
+        # idiom: the default is assigned AFTER the scan, when the conversion count says the weight was not converted
+        nconv_ = len(binds)
+        post = []
+        for (d, rhs) in inloop:
+            if d.k == 'VarDecl' or rhs is None or not cfg.dominates(sc, d):
+                continue
+            # conditions between the scan and the assignment (those that also enclose the scan select the line kind)
+            conds = [(c_, pol_) for (c_, pol_) in ex.ast_conditions(d)
+                     if not (c_.enclosing('IfStmt') is not None and c_.enclosing('IfStmt').is_ancestor_of(sc))]
+            if len(conds) != 1:
+                continue
+            tv = count_guard_values(fn, conds[0][0], sc, range(0, nconv_ + 1))
+            if tv is None:
+                continue
+            tv = [bool(x) == conds[0][1] for x in tv]
+            r_ = rhs.strip_all()
+            val_ = r_.cv if r_.cv is not None else (r_.value if r_.k == 'FloatingLiteral' else None)
+            post.append((d, tv, val_))
+        if post and not [x for x in dom if x[1] is not None]:
+            d, tv, val_ = post[0]
+            # executed exactly when the trailing weight was not converted: for every count below the full count, not for the full count
+            if all(tv[:nconv_]) and not tv[nconv_] and val_ is not None and float(val_) == 1.0:
+                rep.ok('R10b', sc, fn, whatb, '%s = 1 is assigned after the scan whenever fewer than %d fields were converted' % (wname, nconv_))
+            elif val_ is not None and float(val_) != 1.0:
+                rep.violation('R10b', sc, fn, whatb, 'default is %s, not 1' % val_, key='R10b|%s|default-value' % fn.g)
+            elif tv[nconv_]:
+                rep.violation('R10b', d, fn, whatb, '`%s` is also executed when the weight was converted: the parsed weight is overwritten' % d.text(30),
+                              key='R10b|%s|overwrites' % fn.g)
+            elif not tv[nconv_ - 1]:
+                rep.violation('R10b', d, fn, whatb, 'the default is not assigned when exactly the weight field is missing (%d of %d fields converted): an '
+                              'indeterminate value is used' % (nconv_ - 1, nconv_), key='R10b|%s|uninitialised' % fn.g)
+            else:
+                rep.undecided('R10b', sc, fn, whatb, 'default assigned after the scan under a condition on the conversion count')
+        elif uninit and not [x for x in dom if x[1] is not None]:
             rep.violation('R10b', sc, fn, whatb,
                           '%s is declared without an initialiser (line %d): on a line without weight sscanf leaves it untouched and an '
                           'indeterminate double is read and stored as the edge weight' % (wname, uninit[0].line),
@@ -361,6 +426,12 @@ def check_reader(rep, prog, fn):
     if p_scan is not None:
         pints = [vid for (c, vid, a) in p_scan[2] if c[-1] in 'dui']
         nvar = pints[0] if pints else None
+    gparam_ = fn.param_ids[1] if len(fn.param_ids) > 1 else None
+    delegates = [n for n in nodes if n.k in ('CallExpr', 'CXXMemberCallExpr') and n.callee and n.callee.get('in_repo') and
+                 any(ex.var_of(a) == gparam_ for a in n.args()) and gparam_ is not None]
+    if (not add_vertices or not [a for a in add_edges if line_loop is not None and line_loop.is_ancestor_of(a)]) and delegates:
+        rep.undecided('R10d', delegates[0], fn, whatv, 'the graph is built inside the helper `%s`: outside the recognised shape of the reader' % delegates[0].callee['name'])
+        return
     if not add_vertices:
         rep.violation('R10d', fn.body, fn, whatv, 'no add_vertex in the reader', key='R10d|%s|no-add-vertex' % fn.g)
     for av in add_vertices:
@@ -744,12 +815,30 @@ def range_loop_info(prog, fn, loop):
                     if r.k == 'CallExpr' and r.callee:
                         return (r, it)
         return None
+    if loop.k == 'CXXForRangeStmt':
+        # for (const auto &x : boost::make_iterator_range(boost::<range>(...)))   (the loop variable is the element itself: see deref_vars)
+        rng = loop.role('range')
+        for d in (rng.walk() if rng is not None else ()):
+            if d.k == 'CallExpr' and d.callee and d.callee['g'] == 'boost::make_iterator_range' and len(d.args()) == 1:
+                inner = d.args()[0].strip_all()
+                if inner.k == 'CallExpr' and inner.callee and inner.callee['g'].startswith('boost::'):
+                    return (inner, None)
+        return None
     return None
 
 
 def deref_vars(fn, loop, itvar):
-    """variables initialised from *it inside the loop body"""
+    """variables initialised from *it inside the loop body (for a range-for: the loop variable itself and copies of it)"""
     res = set()
+    if loop.k == 'CXXForRangeStmt':
+        lv = loop.role('loopvar')
+        for d in (lv.walk() if lv is not None else ()):
+            if d.k == 'VarDecl':
+                res.add(d.decl_id)
+        for n in loop.body.walk() if loop.body is not None else ():
+            if n.k == 'VarDecl' and n.c and ex.var_of(n.c[0]) in res:
+                res.add(n.decl_id)
+        return res
     for n in loop.body.walk() if loop.body is not None else ():
         if n.k == 'VarDecl' and n.c:
             d = n.c[0].strip_all()
@@ -1243,6 +1332,14 @@ def check_has_multiple(rep, prog, fn):
                     if sv is not None and prog.rec_name(prog.vars[sv]['ty']) in ('std::set', 'std::unordered_set'):
                         setvars[sv] = c
                         return ex.f_not(ex.f_atom('dup'))
+            # fast path: a vertex with fewer than two incident edges cannot see a neighbour twice, so skipping it changes nothing
+            if s.k == 'BinaryOperator' and s.op in ('<', '<=', '==') and s.c[1].strip_all().cv is not None:
+                dg = s.c[0].strip_all()
+                c_ = s.c[1].strip_all().cv
+                if dg.k == 'CallExpr' and dg.callee and dg.callee['g'] in ('boost::out_degree', 'boost::degree') and len(dg.args()) == 2 and \
+                        ex.var_of(dg.args()[0]) in vvars and ex.var_of(dg.args()[1]) == g and \
+                        ((s.op == '<' and c_ <= 2) or (s.op == '<=' and c_ <= 1) or (s.op == '==' and c_ in (0, 1))):
+                    return ex.FALSE      # on every vertex that can have a duplicate the test is false
             if s.k == 'BinaryOperator' and s.op in ('==', '!=') and s.c[1].strip_all().cv in (0, 1):
                 inner_f = atomize(s.c[0])
                 if inner_f is not None:
